@@ -13,6 +13,7 @@ import hashlib
 import inspect
 import json
 import operator
+import os
 import random
 
 import numpy as np
@@ -418,10 +419,23 @@ def run(tier):
         n_sh += 1
     if n_sh < 20000:
         raise MachineryError("sharing export too small: %d" % n_sh)
+    n_sh4 = 0
+    if thorough:
+        # depth 4 (2.7 M behaviours): every 12th behaviour, classes rotating
+        rsh4 = run_tlc("Sharing", "Sharing_d4", stream=True, timeout=3600)
+        for k, h in enumerate(rsh4.iter_json()):
+            if k % 12:
+                continue
+            sharelib.replay(j, PID, elems.MAIN8[n_sh4 % len(elems.MAIN8)], h)
+            n_sh4 += 1
+        try:
+            os.remove(rsh4.out_path)          # ~1 GB of exported behaviours
+        except OSError:
+            pass
     cov = {"states": ra.distinct + rd.distinct + rsmall.distinct + rsh.distinct,
            "transitions": ra.generated + rd.generated + rsmall.generated + rs.generated + rsh.generated,
            "traces_validated_against_impl": n_api + n_op + n_ref + len(rs.json) + n_sh,
-           "sharing_behaviours_depth3": n_sh,
+           "sharing_behaviours_depth3": n_sh, "sharing_behaviours_depth4_sampled": n_sh4,
            "api_calls": n_api, "operator_cells": n_op, "reflected_members": n_ref,
            "heap_behaviours": len(rs.json), "heap_behaviours_replayed_to_the_end": complete,
            "heap_model_small_exhaustive": rsmall.stats(),
